@@ -741,6 +741,8 @@ fn run_concurrent(tasks: &[CAcq]) -> Vec<(usize, u8, bool)> {
         let (w, lg, ce) = (world.clone(), log.clone(), canary_err.clone());
         hs.push(shuttle::thread::spawn(move || {
             sched_point();
+            // kind 10 = the acquiring call begins (its effect lies between this and its 0 / 1 entry)
+            lg.lock().unwrap().push((ti, 10, true));
             let r = catch_unwind(AssertUnwindSafe(|| -> G {
                 match a {
                     CAcq::R(0) => G::R0(w.fetch()),
@@ -783,6 +785,8 @@ fn run_concurrent(tasks: &[CAcq]) -> Vec<(usize, u8, bool)> {
                     if before != after {
                         *ce.lock().unwrap() = Some(format!("task {} saw its resource change from {} to {} while holding a guard", ti, before, after));
                     }
+                    // kind 12 = the release begins
+                    lg.lock().unwrap().push((ti, 12, true));
                     drop(g);
                     lg.lock().unwrap().push((ti, 2, true));
                 }
@@ -808,41 +812,86 @@ fn c_key(a: CAcq) -> (usize, bool) {
     }
 }
 
+/// The cell operations inside the calls are scheduling points, so a call is an interval [begin, end] of the log
+/// and takes effect somewhere inside it.  The log is accepted iff SOME order of the effects that respects the
+/// real-time order of the intervals explains every outcome by the shared-xor-exclusive model (brute force: there
+/// are at most 6 operations).
 fn check_concurrent(tasks: &[CAcq], log: &[(usize, u8, bool)]) -> Option<(String, String)> {
-    let mut shared = [0u32; 3];
-    let mut excl = [false; 3];
-    for (ti, kind, _) in log {
-        if *ti == usize::MAX {
-            return Some(("guarded-value-changed-under-guard".into(), "a task saw its resource change while it held a guard".into()));
-        }
-        let (k, ex) = c_key(tasks[*ti]);
-        let can = if ex { shared[k] == 0 && !excl[k] } else { !excl[k] };
+    if log.iter().any(|e| e.0 == usize::MAX) {
+        return Some(("guarded-value-changed-under-guard".into(), "a task saw its resource change while it held a guard".into()));
+    }
+    // operations: (task, is_release, begin index, end index, acquired?)
+    let mut ops: Vec<(usize, bool, usize, usize, bool)> = Vec::new();
+    for (i, (ti, kind, _)) in log.iter().enumerate() {
         match kind {
-            0 => {
-                if !can {
-                    return Some(("aliasing-guard-returned".into(), format!("task {} obtained {:?} although the cell was borrowed (shared {}, exclusive {})", ti, tasks[*ti], shared[k], excl[k])));
-                }
-                if ex {
-                    excl[k] = true
-                } else {
-                    shared[k] += 1
+            10 | 12 => ops.push((*ti, *kind == 12, i, usize::MAX, false)),
+            0 | 1 | 2 => {
+                if let Some(o) = ops.iter_mut().rev().find(|o| o.0 == *ti && o.3 == usize::MAX) {
+                    o.3 = i;
+                    o.4 = *kind == 0;
                 }
             }
-            1 => {
-                if can {
-                    return Some(("unexpected-panic".into(), format!("task {} panicked on {:?} although the cell was available (shared {}, exclusive {})", ti, tasks[*ti], shared[k], excl[k])));
-                }
+            _ => {}
+        }
+    }
+    ops.retain(|o| o.3 != usize::MAX);
+    fn search(ops: &[(usize, bool, usize, usize, bool)], tasks: &[CAcq], done: &mut Vec<bool>, shared: &mut [u32; 3], excl: &mut [bool; 3]) -> bool {
+        if done.iter().all(|d| *d) {
+            return true;
+        }
+        for i in 0..ops.len() {
+            if done[i] {
+                continue;
             }
-            _ => {
+            // every operation that ended before this one began must already have taken effect
+            if (0..ops.len()).any(|j| !done[j] && j != i && ops[j].3 < ops[i].2) {
+                continue;
+            }
+            let (ti, is_release, _, _, acquired) = ops[i];
+            let (k, ex) = c_key(tasks[ti]);
+            let can = if ex { shared[k] == 0 && !excl[k] } else { !excl[k] };
+            let (s0, e0) = (*shared, *excl);
+            let ok = if is_release {
                 if ex {
                     excl[k] = false
                 } else {
                     shared[k] -= 1
                 }
+                true
+            } else if acquired {
+                if can {
+                    if ex {
+                        excl[k] = true
+                    } else {
+                        shared[k] += 1
+                    }
+                }
+                can
+            } else {
+                !can
+            };
+            if ok {
+                done[i] = true;
+                if search(ops, tasks, done, shared, excl) {
+                    return true;
+                }
+                done[i] = false;
             }
+            *shared = s0;
+            *excl = e0;
         }
+        false
     }
-    None
+    let mut done = vec![false; ops.len()];
+    if search(&ops, tasks, &mut done, &mut [0; 3], &mut [false; 3]) {
+        None
+    } else {
+        let any_fail = ops.iter().any(|o| !o.1 && !o.4);
+        Some((
+            if any_fail { "outcomes-not-linearizable".into() } else { "aliasing-guard-returned".into() },
+            "no order of the calls' effects that respects their real-time order explains the outcomes by the shared-xor-exclusive model (a guard was handed out although the cell was taken, or a call failed although nothing conflicting was held)".into(),
+        ))
+    }
 }
 
 pub struct C8Conc {
@@ -871,6 +920,8 @@ pub fn run_concurrent_part(ntasks: usize, bound: u32, deadline: std::time::Insta
     // tasks are symmetric: keep sorted configurations only
     configs.retain(|c| c.windows(2).all(|w| format!("{:?}", w[0]) <= format!("{:?}", w[1])));
     let configs = Arc::new(configs);
+    // every borrow / release of every cell is a scheduling point while this part runs
+    shred::cell::verif::set_points(true);
     let next = Arc::new(std::sync::atomic::AtomicUsize::new(0));
     let total: Arc<Mutex<(u64, u64, u64, u64, Collector, bool)>> = Arc::new(Mutex::new((0, 0, 0, 0, Collector::default(), false)));
     std::thread::scope(|s| {
@@ -901,7 +952,7 @@ pub fn run_concurrent_part(ntasks: usize, bound: u32, deadline: std::time::Insta
                         }
                     };
                     Some(sched::Job {
-                        cfg: Cfg { bound, deadline: Some(deadline), ..Default::default() },
+                        cfg: Cfg { bound, deadline: Some(deadline), all_points: true, ..Default::default() },
                         body: Arc::new(body),
                         on_abnormal: Box::new(move |ab: Abnormal, ch: Vec<u16>| {
                             a3.lock().unwrap().0.add(Finding { prop: "MACHINERY".into(), sig: "c08-concurrent-abnormal".into(), msg: format!("{:?} tasks {:?}", ab, cfg2), replay: json!({"choices": ch}), size: 0 });
@@ -926,6 +977,7 @@ pub fn run_concurrent_part(ntasks: usize, bound: u32, deadline: std::time::Insta
             });
         }
     });
+    shred::cell::verif::set_points(false);
     let mut t = total.lock().unwrap();
     col.merge(std::mem::take(&mut t.4));
     C8Conc { configs: configs.len() as u64, schedules: t.0, nodes: t.1, transitions: t.2, conflicts_seen: t.3, capped: t.5 }
